@@ -362,3 +362,6 @@ func Sym_Row_Scan(row *sql.Row, dest ...interface{}) error {
 }
 
 var _ = io.EOF
+
+func lockStore()   {}
+func unlockStore() {}
